@@ -19,7 +19,7 @@ def substOps : OpTable
     pure (encStr (s.flatMap (if a then escAttrChar else escTextChar)))
   | "decode_refs" => some do
     let s ← str
-    pure (encStr (decodeRefs s))
+    pure (encStr (decodeCharRefs s))
   | _ => none
 
 end HtmlVerif.Ops
